@@ -177,12 +177,14 @@ def make_grid(rng, n, kind):
         den = 16 if n <= 12 else 128
         inner = sorted(rng.sample(range(1, den), n - 2))
         g = np.array([0.0] + [k / float(den) for k in inner] + [1.0])
-    else:                             # random monotone, spacings >= 0.02
-        while True:
-            inner = sorted(rng.uniform(0.02, 0.98) for _ in range(n - 2))
-            g = np.array([0.0] + inner + [1.0])
-            if np.diff(g).min() >= 0.02:
-                break
+    else:                             # random monotone, spacings >= min(0.02, 1/(2(n-1)))
+        gap = min(0.02, 0.5 / (n - 1))
+        w = [rng.random() + 1e-3 for _ in range(n - 1)]
+        t = sum(w)
+        d = [gap + (1.0 - gap * (n - 1)) * x / t for x in w]
+        g = np.concatenate([[0.0], np.cumsum(d)])
+        g[-1] = 1.0
+        assert np.diff(g).min() > 0.9 * gap
     return np.asarray(g, dtype=float)
 
 
